@@ -67,6 +67,7 @@ func NewAdversary(w *World, p *Profile) *Adversary {
 		{"reblock", 6, a.reblock},
 		{"wrapLen", 0, a.wrapLen},
 		{"goodNV", 4, a.goodNV},
+		{"viewFlood", 0, a.viewFlood},
 	}
 	for i := range a.strat {
 		if p.AdvWeights != nil {
@@ -573,7 +574,38 @@ func (a *Adversary) forgedNV(h uint64) bool {
 	for _, id := range voteIds(votes) {
 		have[id] = true
 	}
-	variant := a.r.Intn(9)
+	variant := a.r.Intn(11)
+	if variant == 9 {
+		// the genuine (and the Byzantine members' own) votes already weigh a quorum; one more vote follows them — a second vote
+		// of the leader — carrying a forged proof for a block nobody validated, which the NEW_VIEW proposes
+		if !c.IsQuorum(voteIds(votes)) {
+			return false
+		}
+		E := a.newBlock(h, true)
+		extra := a.mkVote(leader, inst, h, v, a.forgeProof(h, v-1, E))
+		if a.r.Intn(2) == 0 {
+			extra = a.mkVote(leader, inst, h, v, a.sigLessProof(h, v-1, E))
+		}
+		votes = append(votes, extra)
+		a.sendSome(leader, a.at(h), a.mkNV(leader, h, v, votes, spi.HashOf(E), E, v), 90)
+		a.w.Mon.Stats["adv NEW_VIEW with a surplus vote behind a quorum of votes"]++
+		return true
+	}
+	if variant == 10 {
+		// genuine votes the same member collected one rotation earlier (view v-n), embedded as they are in its NEW_VIEW for v
+		n := uint64(c.N())
+		if v < n {
+			return false
+		}
+		old := a.collectVotes(h, v-n, leader)
+		if !c.IsQuorum(voteIds(old)) {
+			return false
+		}
+		E := a.newBlock(h, false)
+		a.sendSome(leader, a.at(h), a.mkNV(leader, h, v, old, spi.HashOf(E), E, v), 90)
+		a.w.Mon.Stats["adv NEW_VIEW built from the votes of one rotation earlier"]++
+		return true
+	}
 	if variant == 8 {
 		// exactly one forged vote, in the name of the node the NEW_VIEW is sent to (a vote that node never cast), preferably
 		// one whose weight completes the quorum
@@ -649,7 +681,11 @@ func (a *Adversary) forgedNV(h uint64) bool {
 	if variant == 5 { // forged prepared proof for the evil block inside the leader's own vote
 		for i, vt := range votes {
 			if vt.Sender.Id == leader {
-				votes[i] = a.mkVote(leader, inst, h, v, a.forgeProof(h, v-1, E))
+				if a.r.Intn(3) == 0 {
+					votes[i] = a.mkVote(leader, inst, h, v, a.sigLessProof(h, v-1, E))
+				} else {
+					votes[i] = a.mkVote(leader, inst, h, v, a.forgeProof(h, v-1, E))
+				}
 			}
 		}
 	}
@@ -669,6 +705,127 @@ func (a *Adversary) replayVote(id string, h, v uint64) *ref.Vote {
 		}
 	}
 	return nil
+}
+
+// sigLessProof: both block references filled in (view pv, hash of blk), no PREPREPARE sender and no PREPARE senders at all.
+func (a *Adversary) sigLessProof(h, pv uint64, blk *spi.Blk) *ref.Proof {
+	inst := uint64(spi.InstanceId)
+	a.w.Mon.Stats["adv proofs without any signature"]++
+	return &ref.Proof{PPRef: &ref.Ref{Type: ref.PP, Inst: inst, H: h, V: pv, Hash: spi.HashOf(blk)}, PRef: &ref.Ref{Type: ref.P, Inst: inst, H: h, V: pv, Hash: spi.HashOf(blk)}}
+}
+
+// crossHeightProof: PREPREPARE reference for (h, u, hash X) signed by the Byzantine leader of view u at h, over the genuine PREPARE
+// signatures correct members produced for (h-1, u, X) — X being a block of height h-1.
+func (a *Adversary) crossHeightProof(h, v uint64) (*ref.Proof, *spi.Blk) {
+	if h < 2 {
+		return nil, nil
+	}
+	c := a.w.Comm(h)
+	inst := uint64(spi.InstanceId)
+	type key struct {
+		v    uint64
+		hash string
+	}
+	sigs := map[key]map[string][]byte{}
+	blocks := map[string]*spi.Blk{}
+	for _, f := range a.w.Seen {
+		m := f.Msg
+		if m == nil || m.H != h-1 || m.Inst != inst {
+			continue
+		}
+		if (m.Env == ref.EnvPP || m.Env == ref.EnvNV) && m.Block != nil {
+			blocks[string(m.Hash)] = m.Block
+		}
+		if m.Env != ref.EnvP || m.Type != ref.P || m.V >= v || !a.w.Keys.VerifyCM(m.Sender.Id, h-1, m.HdrRaw, m.Sender.Sig) {
+			continue
+		}
+		k := key{m.V, string(m.Hash)}
+		if sigs[k] == nil {
+			sigs[k] = map[string][]byte{}
+		}
+		sigs[k][m.Sender.Id] = m.Sender.Sig
+	}
+	var keys []key
+	for k := range sigs {
+		keys = append(keys, k)
+	}
+	sort.Slice(keys, func(i, j int) bool {
+		return keys[i].v < keys[j].v || (keys[i].v == keys[j].v && keys[i].hash < keys[j].hash)
+	})
+	for _, k := range keys {
+		blk := blocks[k.hash]
+		leader := c.Leader(k.v)
+		if blk == nil || !a.w.Cfg.Byz[leader] {
+			continue
+		}
+		ids := []string{leader}
+		for id := range sigs[k] {
+			if id != leader && c.Has(id) {
+				ids = append(ids, id)
+			}
+		}
+		if !c.IsQuorum(ids) {
+			continue
+		}
+		pp := &ref.Ref{Type: ref.PP, Inst: inst, H: h, V: k.v, Hash: []byte(k.hash)}
+		pr := &ref.Ref{Type: ref.P, Inst: inst, H: h - 1, V: k.v, Hash: []byte(k.hash)}
+		p := &ref.Proof{PPRef: pp, PRef: pr, PPSender: &ref.Sig{Id: leader, Sig: a.sign(leader, h, pp.Bytes())}}
+		sort.Strings(ids)
+		for _, id := range ids {
+			if id != leader {
+				p.PSenders = append(p.PSenders, ref.Sig{Id: id, Sig: sigs[k][id]})
+			}
+		}
+		a.w.Mon.Stats["adv cross-height proofs built"]++
+		return p, blk
+	}
+	return nil, nil
+}
+
+// viewFlood: a Byzantine member's genuinely signed PREPAREs or COMMITs for many distinct future views of the current height,
+// sent to the correct nodes working on it (they are entitled to keep such messages; whatever they do with them must not cost
+// them what they hold for the views that matter).
+func (a *Adversary) viewFlood(h uint64) bool {
+	bm := a.byzMembers(h)
+	nodes := a.at(h)
+	if len(bm) == 0 || len(nodes) == 0 {
+		return false
+	}
+	b := bm[a.r.Intn(len(bm))]
+	inst := uint64(spi.InstanceId)
+	vs := a.views(h)
+	base := vs[len(vs)-1]
+	hash := spi.HashOf(a.newBlock(h, false))
+	if ps := a.proposals(h); len(ps) > 0 && a.r.Intn(2) == 0 {
+		hash = []byte(ps[a.r.Intn(len(ps))].hash)
+	}
+	count := 6 + a.r.Intn(40)
+	step := uint64(1)
+	if a.r.Intn(3) == 0 {
+		step = uint64(1) << uint(10+a.r.Intn(40))
+	}
+	env, typ := ref.EnvP, ref.P
+	if a.r.Intn(2) == 0 {
+		env, typ = ref.EnvC, ref.C
+	}
+	for _, n := range nodes {
+		if a.r.Intn(4) == 0 {
+			continue
+		}
+		for k := 1; k <= count; k++ {
+			f := a.w.Inject(b, n.Id, a.mkRefMsg(env, typ, b, inst, h, base+uint64(k)*step, hash, nil))
+			for i := len(a.w.Pool) - 1; i >= 0; i-- {
+				if a.w.Pool[i] == f {
+					a.w.TakeFlight(i)
+					break
+				}
+			}
+			a.w.Deliver(f)
+			a.w.Mon.Stats["delivered adversarial"]++
+		}
+	}
+	a.w.Mon.Stats["adv floods of messages for distinct future views"]++
+	return true
 }
 
 // forgeProof: a prepared proof for blk at view pv signed by whoever the adversary can sign for, garbage otherwise.
@@ -720,9 +877,20 @@ func (a *Adversary) twistedNV(h uint64) bool {
 	}
 	E := a.newBlock(h, a.r.Intn(3) == 0)
 	var m *interfaces.ConsensusRawMessage
-	variant := a.r.Intn(12)
+	variant := a.r.Intn(13)
 	lateVotes := false
 	switch {
+	case variant == 12: // the leader's own vote carries a proof glued from two heights, the NEW_VIEW re-proposes the previous height's block
+		cp, cblk := a.crossHeightProof(h, v)
+		if cp == nil {
+			return false
+		}
+		for i, vt := range votes {
+			if vt.Sender.Id == leader {
+				votes[i] = a.mkVote(leader, uint64(spi.InstanceId), h, v, cp)
+			}
+		}
+		m = a.mkNV(leader, h, v, votes, cp.PPRef.Hash, cblk, v)
 	case variant == 11 && lockHash != nil:
 		// the votes carry a proof, the NEW_VIEW re-proposes (hash and block matching) another block that was accepted earlier at this
 		// height — the one some members are still prepared on from a lower view
@@ -930,7 +1098,16 @@ func (a *Adversary) vcGames(h uint64) bool {
 	}
 	E := a.newBlock(h, false)
 	var raw *interfaces.ConsensusRawMessage
-	switch a.r.Intn(13) {
+	switch a.r.Intn(16) {
+	case 12: // a proof with both block references and not a single signature, next to a block nobody validated
+		bad := a.newBlock(h, true)
+		raw = ref.RawVoteMsg(a.mkVote(b, inst, h, v, a.sigLessProof(h, v-1, bad)), bad)
+	case 13, 14: // a proof glued from two heights: own PREPREPARE reference for this height over the genuine PREPAREs of the previous one
+		cp, cblk := a.crossHeightProof(h, v)
+		if cp == nil {
+			return false
+		}
+		raw = ref.RawVoteMsg(a.mkVote(b, inst, h, v, cp), cblk)
 	case 9: // a plain vote for a later view the same member leads (one or a few rotations ahead, or far away): legitimate, and
 		// it must not get in the way of the votes for the views in between
 		v2 := v + uint64(c.N())*uint64(1+a.r.Intn(3))
